@@ -18,15 +18,19 @@ def run(rep):
         "the frame that makes FVA steps independent of each other; unknown ids raise KeyError with nothing changed; add_pfba, from which "
         "the total-flux cap of pfba_factor is derived, is proved to put coefficient 1 on the forward AND reverse variable of EVERY "
         "reaction (C09 kernel + lemmas: the objective is the total absolute flux). flux_variability_analysis ITSELF is proved for "
-        "the serial, non-loopless path without pfba_factor over all reactions (loop invariant over the reaction ids, both sweeps): "
+        "the serial, non-loopless path, for all reactions or a given reaction_list, with and without pfba_factor (loop invariant over "
+        "the requested reaction ids, both sweeps): "
         "the model is optimised first; ONE variable fva_old_objective, bounded by fraction_of_optimum x optimum from below for a "
         "maximisation model and from above for a minimisation model, is tied to the old objective expression by an equality "
         "constraint and both are added in one call; the objective is replaced by Zero; the direction is min in the first sweep and "
         "max in the second (_init_worker, proved); in each sweep, for EVERY reaction the LP solved has exactly +1 forward -1 reverse "
         "of that reaction as objective (contract of _fva_step at the call site inside map()) and the value stored under (id, "
         "minimum / maximum) is the value of that solve; all coefficients are 0 again after every step; the function's context is "
-        "closed again. With the assumption that an `optimal` answer of the solver is a true optimum this is the statement for that "
-        "path. The pfba_factor branch, reaction_list given, the pool fan-out (C14), the loopless post-processing and GLPK's "
+        "closed again; with pfba_factor: add_pfba (proved, C09) is called with the SAME fraction (repair 1766950) inside an inner "
+        "context, the parsimonious problem is solved, flux_sum <= pfba_factor x that minimum is tied to the total-flux expression "
+        "by an equality and both are added AFTER the inner context has been left (in the function's own context). With the "
+        "assumption that an `optimal` answer of the solver is a true optimum this is the statement for that path. The pool "
+        "fan-out (C14), the loopless post-processing and GLPK's "
         "optimality are NOT proved: bounded driver (ranges against exact rational min/max of the documented problem; loopless "
         "against brute force)."),
         trusted=["optlang Objective.set_linear_coefficients (assumed contract)", "an optimal LP has a finite optimum (in the assumed optimize contract)",
